@@ -2,6 +2,7 @@ package props
 
 import (
 	"fmt"
+	z "github.com/Oudwins/zog"
 	"reflect"
 	"strings"
 
@@ -308,9 +309,31 @@ func (c01) RunCase(c *core.Ctx) {
 				return
 			}
 		}
-		if problem := dWideAndDeep(); problem != "" && strings.HasPrefix(problem, "Validate") {
-			c.Violation("success-but-invalid|Validate", map[string]any{"observed": problem})
+		if problem := dWideAndDeep(); problem != "" {
+			c.Violation("success-but-invalid|wide-or-deep-value", map[string]any{"schema": "Slice(Ptr(Int().GT(0))) / node = z.Struct(fields); fields[next] = Ptr(node) (a recursive schema: the field is added to the map after z.Struct took it)", "observed": problem})
 			return
+		}
+		// every test declared on a node is judged, also when two custom tests report under one code
+		noSpace := func(v any, ctx z.Ctx) bool { return !strings.Contains(v.(string), " ") }
+		noDigit := func(v any, ctx z.Ctx) bool { return !strings.ContainsAny(v.(string), "0123456789") }
+		for _, mode := range []string{"Parse", "Validate"} {
+			sch := z.String().TestFunc(noSpace, z.IssueCode("format")).TestFunc(noDigit, z.IssueCode("format")).Test(z.TestFunc("format", func(v any, ctx z.Ctx) bool { return len(v.(string)) < 9 }))
+			var n int
+			for _, in := range []string{"a b", "ab1", "abcdefghij"} {
+				v := in
+				var l z.ZogIssueList
+				if mode == "Parse" {
+					l = sch.Parse(in, &v)
+				} else {
+					l = sch.Validate(&v)
+				}
+				n += len(l)
+			}
+			c.Eval(3)
+			if n != 3 {
+				c.Violation("success-but-invalid|"+mode, map[string]any{"schema": "String().TestFunc(no space, IssueCode(format)).TestFunc(no digit, IssueCode(format)).Test(TestFunc(format, shorter than 9))", "inputs": "\"a b\", \"ab1\", \"abcdefghij\" (each violates exactly one of the three)", "issues_reported_in_total": n, "want": 3})
+				return
+			}
 		}
 	}
 	if c.Case%100 == 43 {
